@@ -829,6 +829,28 @@ class Body:
                     stack.append((n, path + [n]))
         return out
 
+    def feasible_paths(self, start, end, limit=50000):
+        """Acyclic paths start->end that are not contradicted by constant boolean flags: a switch whose
+        operand is, on that path, a (possibly negated) boolean constant must take the matching edge."""
+        out = []
+        for p in self.acyclic_paths(start, end, limit=limit):
+            ps = PathSummary(self, p)
+            ok = True
+            for bb, o, vals in ps.decisions():
+                neg = False
+                while o[0] == "unop" and o[1] == "Not":
+                    o = o[2]
+                    neg = not neg
+                v = o_const_value(o)
+                if isinstance(v, bool):
+                    t = truthy(vals)
+                    if t is not None and t != (v != neg):
+                        ok = False
+                        break
+            if ok:
+                out.append(p)
+        return out
+
     # ---- guard liveness -----------------------------------------------------------------------------
     def held_region(self, local, def_bb, unwind=True):
         """Program points (bb, 'entry') at which an owned value first stored in `local` (defined by
